@@ -209,4 +209,6 @@ def local_push(req):
     return out
 
 
-HANDLERS = dict(ids=ids, push=push, local_push=local_push)
+from impl_C06_report import report_status, parse_packets
+
+HANDLERS = dict(ids=ids, push=push, local_push=local_push, report_status=report_status, parse_packets=parse_packets)
